@@ -20,7 +20,8 @@ ASSUMPTIONS = [
     "Reference: props/c08.py::Reference, an integer-femtosecond discrete-event model of the chain circuit and of the testbench "
     "scripts (wake at the first trigger strictly after the current instant; a delay that ends at a clock-edge instant resumes after "
     "that edge's effects; testbenches that wake at one instant run in the order added; tick samples are pre-edge values).",
-    "Only even clock periods are generated (half period exact); phase 0 is not generated.",
+    "Only even clock periods are generated (half period exact). A clock with phase 0 has its first edge at time 0 after the "
+    "testbenches have started (Simulator.advance: all events of a time point take effect before the testbenches run again).",
     "changed()/edge() are awaited on registers only (glitch wake-ups on combinational signals are documented as order-dependent).",
     "No resets are applied.",
 ]
@@ -50,7 +51,7 @@ def gen_prog_tl(seed, tier):
     base_ph = cfg.choice([1, 2, 3, 5])
     for d in prog["domains"]:
         p = cfg.choice(per)
-        clocks[d["name"]] = {"period": p, "phase": cfg.choice([None, base_ph, base_ph, 1, p // 2, p, p + 1])}
+        clocks[d["name"]] = {"period": p, "phase": cfg.choice([None, base_ph, base_ph, 0, 1, p // 2, p, p + 1])}
     sigs = prog["signals"]
     inputs = [i for i, s in enumerate(sigs) if s["role"] in ("input", "ctl") and s["width"] > 0]
     rst_doms = [d["name"] for d in prog["domains"] if not d["reset_less"]]
@@ -99,7 +100,7 @@ def gen_case(seed, tier):
             p2 //= 10
         p1 += p1 % 2
         p2 += p2 % 2
-    ph = lambda p: cfg.choice([None, 1, p // 2, p, p + 1, 3, p // 2 + 1])
+    ph = lambda p: cfg.choice([None, 0, 1, p // 2, p, p + 1, 3, p // 2 + 1])
     ph1 = ph(p1)
     ph2 = cfg.choice([ph1, ph(p2), ph(p2)])
     config = {"w": w, "k1": cfg.randrange(1 << w), "k2": cfg.randrange(1 << w),
@@ -306,6 +307,7 @@ class Reference:
                         run_tb(i)
 
         self.round = 0
+        self.edge_base = -1
         # time 0: all testbenches run in order
         for i in range(n):
             runnable[i] = "start"
@@ -324,18 +326,21 @@ class Reference:
                 wv = wait[i]
                 if wv["k"] == "delay":
                     cands.append(wv["at"])
-            t_edge = min(self.active_edges_after(d, self.now) for d in self.doms)
+            # edge instants up to `edge_base` have been processed (-1 at the start: a clock with phase 0 has its first edge at
+            # time 0, *after* the testbenches started)
+            t_edge = min(self.active_edges_after(d, self.edge_base) for d in self.doms)
             t_delay = min(cands) if cands else None
-            if t_delay is not None and t_delay == self.now:
+            if t_delay is not None and t_delay == self.now and not (t_edge == self.now):
                 # zero delay: resumes in the next round at the same instant, no edges in between
                 T = self.now
                 edges_now = []
             else:
                 # registers evolve with every active edge: step through them one instant at a time
                 T = t_edge if t_delay is None else min(t_edge, t_delay)
-                edges_now = [d for d in self.doms if self.is_active_edge(d, T)]
+                edges_now = [d for d in self.doms if self.is_active_edge(d, T)] if T > self.edge_base else []
             self.round += 1
             self.now = T
+            self.edge_base = T
             pre = (self.r1, self.r2, self.comb(), self.en)
             r1_new, r2_new = self.r1, self.r2
             dom_of = {"r1": "d1", "r2": "d2" if self.c["d2"] else "d1"}
@@ -675,6 +680,7 @@ def run_prog_tl(case):
 
             async def tb(ctx):
                 now = 0
+                base = -1          # toggle instants up to `base` have happened (a phase-0 clock toggles at time 0, after the start)
                 compare(ctx, -1, 0)
                 for idx, st in enumerate(case["steps"]):
                     if st["k"] == "set":
@@ -690,9 +696,9 @@ def run_prog_tl(case):
                                 F["arst" if ref.doms[st["d"]]["async_reset"] else "srst"] += 1
                             ref.set_reset(st["d"], st["l"])
                     else:
-                        t_next = _next_toggle(case["clocks"], doms, now)
+                        t_next = _next_toggle(case["clocks"], doms, base)
                         await ctx.delay(Period(fs=t_next - now))
-                        now = t_next
+                        now = base = t_next
                         tog = _toggle_info(case["clocks"], doms, now)
                         active = {n for n, lvl in tog.items() if lvl == act[n]}
                         if len(tog) >= 2:
